@@ -1032,9 +1032,21 @@ def part_tcp(job):
                         del net.sent[:]
                         probs = []
                         try:
-                            drv.send_packet(_mk_crtp(CRTPPacket, h, pl, form))
+                            pk = _mk_crtp(CRTPPacket, h, pl, form)
+                            snap = (pk.header, bytes(pk.data))
+                            drv.send_packet(pk)
                             sent = bytes(net.sent)
                             _check_tcp_out(sent, h, pl, probs)
+                            # the caller's packet is the caller's: unchanged by sending, and sending it again (a retry)
+                            # puts the same bytes on the wire
+                            if (pk.header, bytes(pk.data)) != snap:
+                                probs.append(('out_packet_modified', 'the packet reads header 0x%02x data %s after send_packet'
+                                              % (pk.header, bytes(pk.data).hex())))
+                            del net.sent[:]
+                            drv.send_packet(pk)
+                            if bytes(net.sent) != sent:
+                                probs.append(('out_resend_differs', 'sending the same packet object again put %s on the socket, '
+                                              'the first time %s' % (bytes(net.sent).hex(), sent.hex())))
                         except Exception as e:  # noqa
                             sent = b''
                             probs.append(('out_raises', 'send_packet raised %r' % (e,)))
@@ -1182,10 +1194,21 @@ def part_serial(job):
                         probs = []
                         sent = b''
                         try:
-                            drv.send_packet(_mk_crtp(CRTPPacket, h, pl, form))
+                            pk = _mk_crtp(CRTPPacket, h, pl, form)
+                            snap = (pk.header, bytes(pk.data))
+                            drv.send_packet(pk)
                             frames = [b for b in env.host_tx if b != b'\xff\x00']
                             sent = b''.join(frames)
                             _check_uart_out(sent, h, pl, probs)
+                            if (pk.header, bytes(pk.data)) != snap:
+                                probs.append(('out_packet_modified', 'the packet reads header 0x%02x data %s after send_packet'
+                                              % (pk.header, bytes(pk.data).hex())))
+                            del env.host_tx[:]
+                            drv.send_packet(pk)
+                            again = b''.join(b for b in env.host_tx if b != b'\xff\x00')
+                            if again != sent:
+                                probs.append(('out_resend_differs', 'sending the same packet object again put %s on the UART, '
+                                              'the first time %s' % (again.hex(), sent.hex())))
                         except _Deadlock:
                             probs.append(('out_blocks', 'send_packet blocks for ever although every earlier frame was '
                                           'acknowledged with CTS'))
@@ -1318,7 +1341,7 @@ class _SendGate:
             with self.cv:
                 t0 = time.time()
                 while self.go is not None or len(self.waiting) + len(self.done) < n:
-                    if not self.cv.wait(0.5) and time.time() - t0 > 20:
+                    if not self.cv.wait(0.5) and time.time() - t0 > 120:
                         raise HarnessError('sender threads did not reach a send point')
                 if len(self.done) == n:
                     return
